@@ -148,7 +148,10 @@ def run(chk, replay=None):
                     # selected, then the retry works
                     attach(facade, d, devs, tr, False, fault=(2, 8, 0xFF, 0x22)[(k // 4) % 4])
                 attach(facade, d, devs, tr, i == 0)
-            # and back to the first one
+            # and back to the first one - whose INQUIRY fails first in every second sequence: a device that HAD a set
+            # selected keeps it through a failed re-attach
+            if k % 2:
+                attach(facade, devs[0], devs, tr, False, fault=(2, 8, 0xFF, 0x22)[(k // 2) % 4])
             attach(facade, devs[0], devs, tr, False)
     finally:
         w.cleanup()
